@@ -33,7 +33,7 @@ def main():
         for o in res.outcomes:
             print("  -", o.kind, (repr(o.value)[:400] if o.kind == "return" else {k: v for k, v in o.info.items() if k not in ("stack",)}))
             if "-q" not in sys.argv:
-                print("      facts:", ", ".join("%r=%s" % (p, v) for p, v in o.state.facts.log[:14]))
+                print("      facts:", ", ".join("%r=%s" % (p, v) for p, v in o.state.facts.decisions()[:14]))
                 show_trace(o.state.trace)
         for lid, l in res.loops.items():
             print("  loop", lid, "havoc:", l["havoc"])
